@@ -70,6 +70,7 @@ type FV struct {
 	paths  int
 	unmodelled map[string]bool
 	inlined    map[string]bool
+	uncontracted map[string]bool // repo functions called without contract and not inlinable
 	cntNames   []string
 	prevUsed   bool
 	calleesByContract map[string]bool
